@@ -2,6 +2,7 @@ import KoordVerif.Common.Proto
 import KoordVerif.Model.C12
 import KoordVerif.Model.C12Static
 import KoordVerif.Model.C12Env
+import KoordVerif.Model.C12Parse
 /-
 Driver for C12.  One case = one history on one cgroup tree:
   tree <res> <v2> <n> <parent_0..parent_{n-1}> <old_0..old_{n-1}>
@@ -22,9 +23,66 @@ Output per `none` line: `w <node> <value>` …, then `st …`.
       applyBESuppressCPUSet; kind: 0 NodeTopo nil, 1 policy annotation unparsable, 2 static, 3 none/other;
       rec = calcBECPUSet result (bitmask), -1 = it failed; dir depths are derived from the `be` parents.
 Output per `sup` line: as for `none`, with a line `err` before `st` for kinds 0 and 1.
+
+Third kind of case (harness `parse`): every line is one call of a string-level function; strings are
+sequences of character codes:
+  pcs <codes…>                          cpuset.Parse            → `cs <elements…>` | `cs-err`
+  fcs <mask>                            CPUSet.String           → `str <codes…>`
+  eqcs <n> <a codes> <b codes>          IsEqualStrCpus          → `eq <0|1>`
+  mcs <n> <old codes> <new codes>       MergeConditionIfCPUSetIsLooser → `m <0|1> <merged codes…>` | `m-err`
+  mlim <kind> <n> <old codes> <new codes>   kind 0 MergeConditionIfValueIsLarger, 1 …IfCFSQuotaIsLarger cgroup-v1,
+                                        2 …IfCFSQuotaIsLarger cgroup-v2 → `m <0|1> <merged codes…>` | `m-err`
+(<n> = length of the first string).
 -/
 namespace KoordVerif.C12
 open KoordVerif.Proto
+
+def codesToChars (xs : List Nat) : List Char := xs.map Char.ofNat
+def charsToCodes (cs : List Char) : List Nat := cs.map Char.toNat
+
+def withNats (pre : String) (xs : List Nat) : String := xs.foldl (fun acc x => acc ++ " " ++ toString x) pre
+
+def showMerge : Option (List Char × Bool) → String
+  | none => "m-err"
+  | some (str, b) => withNats "m" ((if b then 1 else 0) :: charsToCodes str)
+
+def runParseLine (line : String) : String :=
+  match toks line with
+  | "pcs" :: ts =>
+    match nats? ts with
+    | some codes => match parseCpuset (codesToChars codes) with
+      | some m => withNats "cs" (maskElems m)
+      | none => "cs-err"
+    | none => "bad-op"
+  | "fcs" :: ts =>
+    match nats? ts with
+    | some [m] => withNats "str" (charsToCodes (fmtCpuset m))
+    | _ => "bad-op"
+  | "eqcs" :: ts =>
+    match nats? ts with
+    | some (n :: codes) =>
+      if codes.length < n then "bad-op" else
+      "eq " ++ (if eqStrCpus (codesToChars (codes.take n)) (codesToChars (codes.drop n)) then "1" else "0")
+    | _ => "bad-op"
+  | "mcs" :: ts =>
+    match nats? ts with
+    | some (n :: codes) =>
+      if codes.length < n then "bad-op" else
+      showMerge (mcCpuset (codesToChars (codes.take n)) (codesToChars (codes.drop n)))
+    | _ => "bad-op"
+  | "mlim" :: ts =>
+    match nats? ts with
+    | some (kind :: n :: codes) =>
+      if codes.length < n then "bad-op" else
+      let old := codesToChars (codes.take n)
+      let new := codesToChars (codes.drop n)
+      match kind with
+      | 0 => showMerge (mcValueLarger old new)
+      | 1 => showMerge (mcCfsQuota false old new)
+      | 2 => showMerge (mcCfsQuota true old new)
+      | _ => "bad-op"
+    | _ => "bad-op"
+  | _ => "bad-op"
 
 structure Run (α : Type) where
   D : Dom α
@@ -141,6 +199,7 @@ def runCase (lines : List String) : List String :=
   | [] => []
   | first :: rest =>
     match toks first with
+    | "pcs" :: _ | "fcs" :: _ | "eqcs" :: _ | "mcs" :: _ | "mlim" :: _ => lines.map runParseLine
     | "be" :: ts =>
       match nats? ts with
       | some (n :: vals) =>
